@@ -320,6 +320,10 @@ func propC33(c *Check) {
 	ruleR13_1(c)
 	ruleR13_2(c)
 	ruleR12_1(c)
+	// expiry survives a value-log GC rewrite (the moved entry keeps ExpiresAt); reverse iteration
+	// lets an expired newest version hide the older ones (the look-ahead is unconditional)
+	ruleR15_4(c)
+	ruleR05_5(c)
 }
 
 // ---- C28 ----
